@@ -116,9 +116,9 @@ fn issue_and_collect(u: &Value, strat: &Strat, cfg: &Cfg, st: &OrderStats, l: &m
             for (k, d) in local_digests {
                 if !g.insert(k) {
                     *st.dup.lock().unwrap() = Some(d);
-                    let mut case = pipeline::case_json("issue", u, strat, cfg, None);
+                    let mut case = pipeline::case_json("c12_run_dup", u, strat, cfg, None);
                     case["prop"] = json!("C12");
-                    case["note"] = json!("digest repeated across the run; replays only if the repetition is systematic");
+                    case["note"] = json!("digest repeated across the run; the replay issues the same claims from 4 threads x 50 and looks for a repetition");
                     l.violation(Violation::new("issue", "duplicate_digest", "c12_digest_repeated_across_run", "-", "a digest occurred twice across issuances of this run", case));
                 }
             }
@@ -227,6 +227,40 @@ pub fn run(rep: &Report) {
 }
 
 /// Replays the order clause on a fixed small family (used only to confirm an order-leak violation).
+/// Replay of a run-level digest repetition: 4 threads x 50 issuances of the case's claims.
+pub fn replay_run_dup(case: &Value) -> Vec<Violation> {
+    let u = case["claims"].clone();
+    let strat = Strat::from_json(&case["strategy"]);
+    let cfg = Cfg::from_json(&case["cfg"]);
+    let all: Vec<Vec<String>> = std::thread::scope(|s| {
+        let hs: Vec<_> = (0..4)
+            .map(|_| {
+                let (u, strat) = (u.clone(), strat.clone());
+                s.spawn(move || {
+                    let mut l = Local::default();
+                    let mut out = vec![];
+                    for _ in 0..50 {
+                        if let Some(c) = pipeline::issue_checked(&u, &strat, &cfg, Checks::default(), "C12", &mut l) {
+                            out.extend(c.an.all_digests.clone());
+                        }
+                    }
+                    out
+                })
+            })
+            .collect();
+        hs.into_iter().map(|h| h.join().unwrap()).collect()
+    });
+    let mut seen = HashSet::new();
+    let mut l = Local::default();
+    for d in all.into_iter().flatten() {
+        if !seen.insert(d) {
+            l.violation(Violation::new("issue", "duplicate_digest", "c12_digest_repeated_across_run", "-", "a digest occurred twice across issuances", case.clone()));
+            break;
+        }
+    }
+    l.violations()
+}
+
 pub fn replay_order() -> Vec<Violation> {
     let mut l = Local::default();
     let u = json!({"iss": crate::gen::ISS, "exp": crate::gen::EXP, "a": 1, "b": 2, "c": 3});
